@@ -34,6 +34,9 @@ MAY_RAISE = {
     # JSON serialisers: the YAML loader produces values JSON cannot express (!!binary bytes, dates, a self-containing alias)
     "model_dump_json": ("PydanticSerializationError",),
     "json.dumps": ("TypeError", "ValueError"),
+    # urllib.parse: an unbalanced '[' / ']' in the network location ("//[") is rejected with ValueError("Invalid IPv6 URL")
+    "urlparse": ("ValueError",),
+    "urlsplit": ("ValueError",),
 }
 # how external exception classes relate to builtin ones (for handler matching)
 EXT_BASES = {
